@@ -122,8 +122,11 @@ func (q *Queue[T]) doAdd(item T) error {
 		q.nempty.Signal()
 	}
 
-	// for the iterator, signal for any updates
-	q.nupdates.Signal()
+	// wake every waiter on nupdates: blocked producers and iterators
+	// share this condition variable, and a Signal consumed by a
+	// producer that has to park again would leave an iterator asleep
+	// with an unseen item in the queue.
+	q.nupdates.Broadcast()
 
 	return nil
 }
